@@ -32,6 +32,60 @@ def _mutable_expr(e: ast.expr) -> str | None:
     return None
 
 
+USER_OWNED_ROOTS = ("self._put_req", "self.cfg", "self.user", "self.remote_cfg_table", "self.check_timer_provider", "self.seq_num_provider")
+
+
+def _caller_owned_mutation(prog, ev: Evidence) -> list[Finding]:
+    """C11-R1f: objects handed in by the user (put request, configuration, tables) are read, never mutated in place: a local
+    bound to (part of) such an object - also through `x or []` / conditional expressions - that is later mutated changes the
+    caller's object, which the next transaction or a sibling handler given the same object then sees."""
+    ev.rule("C11-R1f", "no in-place mutation of an object reachable from the put request or the user-supplied configuration objects", 2)
+    out: list[Finding] = []
+    n_fn = 0
+    for fi in iter_funcs(prog, ["cfdppy.handler.source", "cfdppy.handler.dest", "cfdppy.handler.common"]):
+        n_fn += 1
+        owned: dict[str, str] = {}
+
+        def roots_in(e: ast.AST) -> str | None:
+            cands = [e]
+            if isinstance(e, ast.BoolOp):
+                cands = list(e.values)
+            elif isinstance(e, ast.IfExp):
+                cands = [e.body, e.orelse]
+            for c in cands:
+                t = ast.unparse(c)
+                if isinstance(c, (ast.Attribute, ast.Subscript)) and any(t.startswith(r + ".") for r in USER_OWNED_ROOTS):
+                    return t
+                if isinstance(c, ast.Name) and c.id in owned:
+                    return owned[c.id]
+            return None
+
+        for n in sorted((x for x in ast.walk(fi.node) if isinstance(x, (ast.Assign, ast.AnnAssign, ast.Expr, ast.AugAssign, ast.Delete))), key=lambda x: (x.lineno, x.col_offset)):
+            if isinstance(n, (ast.Assign, ast.AnnAssign)) and getattr(n, "value", None) is not None:
+                tg = n.targets if isinstance(n, ast.Assign) else [n.target]
+                r = roots_in(n.value)
+                for t in tg:
+                    if isinstance(t, ast.Name):
+                        if r:
+                            owned[t.id] = r
+                        else:
+                            owned.pop(t.id, None)
+                    elif isinstance(t, ast.Subscript) and (roots_in(t.value) is not None):
+                        out.append(Finding("C11-R1f", f"{fi.qualname} | item store into {roots_in(t.value)}", f"`{norm(n)[:80]}` stores into an object owned by the caller ({roots_in(t.value)})", loc(fi, n)))
+            elif isinstance(n, ast.Expr) and isinstance(n.value, ast.Call) and isinstance(n.value.func, ast.Attribute) and n.value.func.attr in MUTATORS:
+                r = roots_in(n.value.func.value)
+                if r:
+                    out.append(Finding("C11-R1f", f"{fi.qualname} | {n.value.func.attr} on {r}", f"`{norm(n)[:80]}` mutates in place an object owned by the caller ({r}): the next use of the same request/configuration object sees the change", loc(fi, n)))
+            elif isinstance(n, ast.AugAssign):
+                base = n.target.value if isinstance(n.target, ast.Subscript) else n.target
+                r = roots_in(base) if isinstance(base, (ast.Name, ast.Attribute)) and not (isinstance(base, ast.Attribute) and ast.unparse(base).startswith(("self._params", "self.states"))) else None
+                if r and isinstance(base, ast.Name):
+                    out.append(Finding("C11-R1f", f"{fi.qualname} | augmented assignment on {r}", f"`{norm(n)[:80]}` extends in place an object owned by the caller ({r})", loc(fi, n)))
+    ev.inst("C11-R1f", f"{n_fn} handler functions scanned: in-place mutations of caller-owned objects: {len(out)}", "ok" if not out else "violation")
+    ev.inst("C11-R1f", f"roots treated as caller-owned: {', '.join(USER_OWNED_ROOTS)}", "ok")
+    return out
+
+
 def check(ctx: Ctx, ev: Evidence) -> list[Finding]:
     prog = ctx.prog
     out: list[Finding] = []
@@ -137,9 +191,17 @@ def check(ctx: Ctx, ev: Evidence) -> list[Finding]:
     if not module_containers:
         for mi in prog.modules.values():
             ev.inst("C11-R1d", f"{mi.name} | no module-level containers", "ok")
+    out += _caller_owned_mutation(prog, ev)
     from .c11_reset import reset_vs_fresh
-    out += reset_vs_fresh(ctx, ev)
-    out += admission_matches_transaction(ctx, ev)
+    try:
+        out += reset_vs_fresh(ctx, ev)
+        out += admission_matches_transaction(ctx, ev)
+    except AnalysisError as exc_:
+        if not out:
+            raise
+        # the interpreter-based part could not run on this tree; the definite syntax-tree findings above stand on their own
+        print(f"note: {exc_} - reported together with the violation(s) below")
+        return out
     ev.extra["explanation"] = (f"every dataclass field default, class attribute, default argument and module-level container of {len(prog.modules)} modules examined "
                                f"for shared mutable state; every function examined for stores to class attributes/globals; reset-vs-fresh comparison of the per-transaction blocks")
     ev.assume("objects handed in by the user (configuration, user, providers) are outside the property: sharing them between handlers is the user's decision")
